@@ -5,7 +5,11 @@ out=${1:-/verif/seeded/MATRIX.txt}; : > $out
 echo "# detection matrix on /repo $(git -C /repo rev-parse --short HEAD), /verif $(git -C /verif rev-parse --short HEAD) - tools/mutant_matrix.sh" >> $out
 for d in /verif/seeded/C*/; do
   id=$(basename $d)
-  props=$(/venv/bin/python -c "import json,sys; print(' '.join(json.load(open('$d/meta.json'))['check_run'].split()[2:]))")
+  props=$(/venv/bin/python -c "
+import json, re
+m = json.load(open('$d/meta.json'))
+toks = [t for t in m.get('check_run', '').split() if re.fullmatch(r'C[0-9][0-9]', t)]
+print(' '.join(dict.fromkeys(toks)) or m['property'])")
   res=$(/verif/tools/try_mutant.sh $d/patch.diff $props 2>&1)
   if echo "$res" | grep -q PATCH-DOES-NOT-APPLY; then v=NOAPPLY
   elif echo "$res" | grep -q "^RESULT .* rc=1 "; then v=DETECTED
